@@ -87,7 +87,8 @@ def main():
     os.makedirs(dst, exist_ok=True)
     for f in os.listdir(a.src):
         if f in ("patch.diff", "README.md") or f.startswith("demo") or f == "build.sh":
-            shutil.copy(os.path.join(a.src, f), os.path.join(dst, f))
+            if os.path.abspath(a.src) != os.path.abspath(dst):
+                shutil.copy(os.path.join(a.src, f), os.path.join(dst, f))
     json.dump(meta, open(os.path.join(dst, "meta.json"), "w"), indent=1)
     print(json.dumps({k: meta[k] for k in meta if k not in ("demo_mutated_tail",)}, indent=1))
 
